@@ -32,69 +32,80 @@ mod opt_cols__pari;
 mod opt_cols__redecl;
 mod same_gen__par;
 mod same_gen__str;
-mod two_inputs__pari;
-mod two_inputs__src2;
-mod two_inputs__ren;
-mod ternary__ser;
-mod ternary__u64;
-mod bound_mix__permpar;
-mod join_chain__perm2;
-mod cond_simple_join__pari;
-mod zero_arity__pari;
-mod lag_right__topar;
-mod lag_left__ser;
-mod lag_three__to;
-mod lag_mid__permpar;
-mod lag_late_delta__topar;
-mod sp_dual__ser;
-mod sp_dual__src0;
-mod sp_dual__perm1;
-mod sp_weighted__topar;
-mod set_reach__pari;
-mod set_reach__src2;
-mod bset__pari;
-mod opt_lat__ser;
-mod bool_lat__pari;
-mod lat_multi_improve__topar;
-mod lat_input__topar;
-mod lat_input__redecl;
-mod count_paths__topar;
-mod count_paths__redecl;
-mod neg_basic__topar;
-mod neg_basic__redecl;
-mod neg_basic__exp;
-mod agg_depth__to;
-mod agg_user__par;
-mod agg_bound_mix__par;
-mod agg_empty_rel__par;
-mod agg_const_args__exppar;
-mod disj__gen;
-mod disj__srcpar;
-mod disj_nested__par;
-mod pat_args__exppar;
-mod multi_head_disj__pari;
-mod mac_basic__ser;
-mod mac_basic__src0;
-mod mac_basic__exp;
-mod mac_nested__par;
-mod mac_gensym_disj__exppar;
-mod rnd_core_01__pari;
-mod rnd_core_04__par;
-mod rnd_core_07__ser;
-mod rnd_core_09__pari;
-mod rnd_core_12__par;
-mod rnd_core_15__ser;
-mod rnd_core_17__pari;
-mod rnd_core_20__par;
-mod rnd_core_23__ser;
-mod rnd_core_25__pari;
-mod rnd_core_28__par;
-mod rnd_agg_01__ser;
-mod rnd_agg_03__pari;
-mod rnd_agg_06__par;
-mod rnd_agg_09__ser;
-mod rnd_agg_11__pari;
-mod rnd_agg_14__par;
+mod not_reorderable__perm1;
+mod pre_join_rec__topar;
+mod two_inputs__to;
+mod two_inputs__srcto;
+mod two_inputs__permpar;
+mod ternary__par;
+mod ternary__strpar;
+mod bound_mix__str;
+mod join_chain__ren;
+mod reach__ser;
+mod self_join3__ser;
+mod lag_right__perm1;
+mod lag_left__par;
+mod lag_three__topar;
+mod lag_mid__str;
+mod multi_head_rec__ser;
+mod sp_dual__par;
+mod sp_dual__src1;
+mod sp_dual__perm2;
+mod longest_capped__ser;
+mod set_reach__to;
+mod set_reach__srcto;
+mod bset__to;
+mod opt_lat__par;
+mod lat_two_keys__ser;
+mod lat_pre_join__ser;
+mod lat_val_bound__ser;
+mod lat_input__run;
+mod lat_input__init;
+mod count_paths__run;
+mod count_paths__init;
+mod neg_basic__run;
+mod neg_basic__init;
+mod neg_basic__exppar;
+mod agg_depth__topar;
+mod agg_user__pari;
+mod agg_bound_mix__pari;
+mod agg_empty_rel__pari;
+mod agg_pre_join__ser;
+mod disj__run;
+mod disj__init;
+mod disj__exppar;
+mod pat_args__pari;
+mod multi_head_disj__ser;
+mod neg_in_disj__exp;
+mod mac_basic__mrt;
+mod mac_basic__runpar;
+mod mac_capture__exppar;
+mod mac_gensym_disj__pari;
+mod rnd_core_01__ser;
+mod rnd_core_03__pari;
+mod rnd_core_06__par;
+mod rnd_core_09__ser;
+mod rnd_core_11__pari;
+mod rnd_core_14__par;
+mod rnd_core_17__ser;
+mod rnd_core_19__pari;
+mod rnd_core_22__par;
+mod rnd_core_25__ser;
+mod rnd_core_27__pari;
+mod rnd_core_30__par;
+mod rnd_agg_03__ser;
+mod rnd_agg_05__pari;
+mod rnd_agg_08__par;
+mod rnd_agg_11__ser;
+mod rnd_agg_13__pari;
+mod rnd_prec_01__par;
+mod rnd_prec_02__topar;
+mod rnd_prec_04__pari;
+mod rnd_prec_06__ser;
+mod rnd_prec_07__to;
+mod rnd_prea_01__par;
+mod rnd_prea_04__ser;
+mod rnd_prea_06__pari;
 
 fn lookup(name: &str) -> fn() -> Box<dyn Driven> {
    match name {
@@ -122,69 +133,80 @@ fn lookup(name: &str) -> fn() -> Box<dyn Driven> {
       "opt_cols__redecl" => opt_cols__redecl::make,
       "same_gen__par" => same_gen__par::make,
       "same_gen__str" => same_gen__str::make,
-      "two_inputs__pari" => two_inputs__pari::make,
-      "two_inputs__src2" => two_inputs__src2::make,
-      "two_inputs__ren" => two_inputs__ren::make,
-      "ternary__ser" => ternary__ser::make,
-      "ternary__u64" => ternary__u64::make,
-      "bound_mix__permpar" => bound_mix__permpar::make,
-      "join_chain__perm2" => join_chain__perm2::make,
-      "cond_simple_join__pari" => cond_simple_join__pari::make,
-      "zero_arity__pari" => zero_arity__pari::make,
-      "lag_right__topar" => lag_right__topar::make,
-      "lag_left__ser" => lag_left__ser::make,
-      "lag_three__to" => lag_three__to::make,
-      "lag_mid__permpar" => lag_mid__permpar::make,
-      "lag_late_delta__topar" => lag_late_delta__topar::make,
-      "sp_dual__ser" => sp_dual__ser::make,
-      "sp_dual__src0" => sp_dual__src0::make,
-      "sp_dual__perm1" => sp_dual__perm1::make,
-      "sp_weighted__topar" => sp_weighted__topar::make,
-      "set_reach__pari" => set_reach__pari::make,
-      "set_reach__src2" => set_reach__src2::make,
-      "bset__pari" => bset__pari::make,
-      "opt_lat__ser" => opt_lat__ser::make,
-      "bool_lat__pari" => bool_lat__pari::make,
-      "lat_multi_improve__topar" => lat_multi_improve__topar::make,
-      "lat_input__topar" => lat_input__topar::make,
-      "lat_input__redecl" => lat_input__redecl::make,
-      "count_paths__topar" => count_paths__topar::make,
-      "count_paths__redecl" => count_paths__redecl::make,
-      "neg_basic__topar" => neg_basic__topar::make,
-      "neg_basic__redecl" => neg_basic__redecl::make,
-      "neg_basic__exp" => neg_basic__exp::make,
-      "agg_depth__to" => agg_depth__to::make,
-      "agg_user__par" => agg_user__par::make,
-      "agg_bound_mix__par" => agg_bound_mix__par::make,
-      "agg_empty_rel__par" => agg_empty_rel__par::make,
-      "agg_const_args__exppar" => agg_const_args__exppar::make,
-      "disj__gen" => disj__gen::make,
-      "disj__srcpar" => disj__srcpar::make,
-      "disj_nested__par" => disj_nested__par::make,
-      "pat_args__exppar" => pat_args__exppar::make,
-      "multi_head_disj__pari" => multi_head_disj__pari::make,
-      "mac_basic__ser" => mac_basic__ser::make,
-      "mac_basic__src0" => mac_basic__src0::make,
-      "mac_basic__exp" => mac_basic__exp::make,
-      "mac_nested__par" => mac_nested__par::make,
-      "mac_gensym_disj__exppar" => mac_gensym_disj__exppar::make,
-      "rnd_core_01__pari" => rnd_core_01__pari::make,
-      "rnd_core_04__par" => rnd_core_04__par::make,
-      "rnd_core_07__ser" => rnd_core_07__ser::make,
-      "rnd_core_09__pari" => rnd_core_09__pari::make,
-      "rnd_core_12__par" => rnd_core_12__par::make,
-      "rnd_core_15__ser" => rnd_core_15__ser::make,
-      "rnd_core_17__pari" => rnd_core_17__pari::make,
-      "rnd_core_20__par" => rnd_core_20__par::make,
-      "rnd_core_23__ser" => rnd_core_23__ser::make,
-      "rnd_core_25__pari" => rnd_core_25__pari::make,
-      "rnd_core_28__par" => rnd_core_28__par::make,
-      "rnd_agg_01__ser" => rnd_agg_01__ser::make,
-      "rnd_agg_03__pari" => rnd_agg_03__pari::make,
-      "rnd_agg_06__par" => rnd_agg_06__par::make,
-      "rnd_agg_09__ser" => rnd_agg_09__ser::make,
-      "rnd_agg_11__pari" => rnd_agg_11__pari::make,
-      "rnd_agg_14__par" => rnd_agg_14__par::make,
+      "not_reorderable__perm1" => not_reorderable__perm1::make,
+      "pre_join_rec__topar" => pre_join_rec__topar::make,
+      "two_inputs__to" => two_inputs__to::make,
+      "two_inputs__srcto" => two_inputs__srcto::make,
+      "two_inputs__permpar" => two_inputs__permpar::make,
+      "ternary__par" => ternary__par::make,
+      "ternary__strpar" => ternary__strpar::make,
+      "bound_mix__str" => bound_mix__str::make,
+      "join_chain__ren" => join_chain__ren::make,
+      "reach__ser" => reach__ser::make,
+      "self_join3__ser" => self_join3__ser::make,
+      "lag_right__perm1" => lag_right__perm1::make,
+      "lag_left__par" => lag_left__par::make,
+      "lag_three__topar" => lag_three__topar::make,
+      "lag_mid__str" => lag_mid__str::make,
+      "multi_head_rec__ser" => multi_head_rec__ser::make,
+      "sp_dual__par" => sp_dual__par::make,
+      "sp_dual__src1" => sp_dual__src1::make,
+      "sp_dual__perm2" => sp_dual__perm2::make,
+      "longest_capped__ser" => longest_capped__ser::make,
+      "set_reach__to" => set_reach__to::make,
+      "set_reach__srcto" => set_reach__srcto::make,
+      "bset__to" => bset__to::make,
+      "opt_lat__par" => opt_lat__par::make,
+      "lat_two_keys__ser" => lat_two_keys__ser::make,
+      "lat_pre_join__ser" => lat_pre_join__ser::make,
+      "lat_val_bound__ser" => lat_val_bound__ser::make,
+      "lat_input__run" => lat_input__run::make,
+      "lat_input__init" => lat_input__init::make,
+      "count_paths__run" => count_paths__run::make,
+      "count_paths__init" => count_paths__init::make,
+      "neg_basic__run" => neg_basic__run::make,
+      "neg_basic__init" => neg_basic__init::make,
+      "neg_basic__exppar" => neg_basic__exppar::make,
+      "agg_depth__topar" => agg_depth__topar::make,
+      "agg_user__pari" => agg_user__pari::make,
+      "agg_bound_mix__pari" => agg_bound_mix__pari::make,
+      "agg_empty_rel__pari" => agg_empty_rel__pari::make,
+      "agg_pre_join__ser" => agg_pre_join__ser::make,
+      "disj__run" => disj__run::make,
+      "disj__init" => disj__init::make,
+      "disj__exppar" => disj__exppar::make,
+      "pat_args__pari" => pat_args__pari::make,
+      "multi_head_disj__ser" => multi_head_disj__ser::make,
+      "neg_in_disj__exp" => neg_in_disj__exp::make,
+      "mac_basic__mrt" => mac_basic__mrt::make,
+      "mac_basic__runpar" => mac_basic__runpar::make,
+      "mac_capture__exppar" => mac_capture__exppar::make,
+      "mac_gensym_disj__pari" => mac_gensym_disj__pari::make,
+      "rnd_core_01__ser" => rnd_core_01__ser::make,
+      "rnd_core_03__pari" => rnd_core_03__pari::make,
+      "rnd_core_06__par" => rnd_core_06__par::make,
+      "rnd_core_09__ser" => rnd_core_09__ser::make,
+      "rnd_core_11__pari" => rnd_core_11__pari::make,
+      "rnd_core_14__par" => rnd_core_14__par::make,
+      "rnd_core_17__ser" => rnd_core_17__ser::make,
+      "rnd_core_19__pari" => rnd_core_19__pari::make,
+      "rnd_core_22__par" => rnd_core_22__par::make,
+      "rnd_core_25__ser" => rnd_core_25__ser::make,
+      "rnd_core_27__pari" => rnd_core_27__pari::make,
+      "rnd_core_30__par" => rnd_core_30__par::make,
+      "rnd_agg_03__ser" => rnd_agg_03__ser::make,
+      "rnd_agg_05__pari" => rnd_agg_05__pari::make,
+      "rnd_agg_08__par" => rnd_agg_08__par::make,
+      "rnd_agg_11__ser" => rnd_agg_11__ser::make,
+      "rnd_agg_13__pari" => rnd_agg_13__pari::make,
+      "rnd_prec_01__par" => rnd_prec_01__par::make,
+      "rnd_prec_02__topar" => rnd_prec_02__topar::make,
+      "rnd_prec_04__pari" => rnd_prec_04__pari::make,
+      "rnd_prec_06__ser" => rnd_prec_06__ser::make,
+      "rnd_prec_07__to" => rnd_prec_07__to::make,
+      "rnd_prea_01__par" => rnd_prea_01__par::make,
+      "rnd_prea_04__ser" => rnd_prea_04__ser::make,
+      "rnd_prea_06__pari" => rnd_prea_06__pari::make,
       _ => panic!("no such program variant in this shard: {}", name),
    }
 }
